@@ -178,6 +178,19 @@ def run():
         if twin_fails(a_, b_) != want: fails.append(f'numeric twin comparator: case {nm} gave {twin_fails(a_, b_)} failures, expected {want}')
     cx = Ctx('num', rng=np.random.default_rng(0)); n_cases[0] += 1
     if cx.close(-np.inf, 2.0) or not cx.close(2.0, 2.0 + 1e-13): fails.append('numeric twin close(): infinite value close to a finite one')
+    # ---- loop cutting: re-alignment of renamed locals accepts pure renamings only
+    import ast as _ast
+    from . import loops as _loops
+    f0 = _ast.parse("def f(self, n):\n    acc = 0\n    for k in range(n):\n        t = k * 2\n        acc += t\n    return acc").body[0]
+    f1 = _ast.parse("def f(self, m):\n    total = 0\n    for i in range(m):\n        u = i * 2\n        total += u\n    return total").body[0]
+    f2 = _ast.parse("def f(self, n):\n    acc = 0\n    for k in range(n):\n        t = k * 2\n        acc += k\n    return acc").body[0]
+    f3 = _ast.parse("def f(self, n):\n    acc = 0\n    for k in range(n):\n        t = acc * 2\n        acc += t\n    return acc").body[0]
+    c0, o0 = _loops._canon(f0); c1, o1 = _loops._canon(f1); c2, _o2 = _loops._canon(f2); c3, _o3 = _loops._canon(f3)
+    n_cases[0] += 4
+    if c0 != c1: fails.append('loops: a pure renaming of locals changed the canonical form')
+    if o0 != ['self', 'n', 'acc', 'k', 't'] or o1 != ['self', 'm', 'total', 'i', 'u']: fails.append(f'loops: local order {o0} {o1}')
+    if c0 == c2: fails.append('loops: A DIFFERENT DATA FLOW HAS THE SAME CANONICAL FORM')
+    if c0 == c3: fails.append('loops: A DIFFERENT DATA FLOW (swapped variable) HAS THE SAME CANONICAL FORM')
     return n_cases[0], fails
 
 
